@@ -590,6 +590,8 @@ def check(run):
     check_stale_loop_variables(run, A, ('pb_bss.permutation_alignment',))
     from ..opt import check_extent_loops
     check_extent_loops(run, A, ('pb_bss.permutation_alignment',))
+    from ..opt import check_result_buffers
+    check_result_buffers(run, A, ('pb_bss.permutation_alignment',))
     check_forwarding(run, A, ('pb_bss.permutation_alignment',))
     check_params_reach(run, A, ('pb_bss.permutation_alignment',))
     check_optional_truthiness(run, A, ('pb_bss.permutation_alignment',))
